@@ -221,7 +221,7 @@ PROPS = {
    "rel": dict(fields=["sw", "ew", "sp", "ss", "ix", "ixr", "cc"],
                spec=[("sw", "spec_sw", ident), ("ew", "spec_ew", ident), ("sp", "spec_sp", ident), ("ss", "spec_ss", ident),
                      ("ix", "spec_ix", ident), ("ixr", "spec_ix", ident), ("cc", "spec_cc", ident)],
-               laws=["law_prefix", "law_suffix", "law_ix", "law_concat"]),
+               laws=["law_prefix", "law_suffix", "law_ix", "law_concat", "law_alias"]),
    "rel3": dict(fields=["cc", "assoc"], laws=["law_concat"]),
    "concat": dict(fields=["text"], laws=["law_list"]),
   },
@@ -257,7 +257,7 @@ PROPS = {
   theorems="Jp.C16.fromStr_eq_spec, fromStr_ok_iff, display_fromStr, fromStr_display, *_truthful, forLen*_exact",
  ),
  "C17": dict(
-  ops={"cmp": dict(fields=["eq", "ord"], spec=[("eq", "spec_eq", ident), ("ord", "spec_ord", ident)], laws=["law_ops", "law_hash", "law_maps", "law_alias"])},
+  ops={"cmp": dict(fields=["eq", "ord"], spec=[("eq", "spec_eq", ident), ("ord", "spec_ord", ident)], laws=["law_ops", "law_hash", "law_maps", "law_alias", "law_reuse"])},
   rule="seeded random ordered pairs of valid pointers (equal, prefix-related, differing in first/middle/last byte or only in length, multi-byte) through all 20 PartialEq and 20 PartialOrd/Ord forms; non-trivial: the texts differ",
   theorems="Jp.C17.eq_impls_are_text_eq, ord_impls_are_lexCmp, lexCmp_* (total order), hash_inputs_equal",
   partial="hash values and map lookups (law_hash, law_maps) exist only on the implementation side; the theorems are shallow by nature",
